@@ -161,10 +161,16 @@ def parse_stim_circuit(
             correlated_error(b, targets, types, instruction.gate_args_copy()[0])
             continue
         if name == "DETECTOR":
+            for t in instruction.targets_copy():
+                if not t.is_measurement_record_target:
+                    raise ValueError(f"Unsupported DETECTOR target: {t}")
             targets = [t.value for t in instruction.targets_copy()]
             detector(b, targets)
             continue
         if name == "OBSERVABLE_INCLUDE":
+            for t in instruction.targets_copy():
+                if not t.is_measurement_record_target:
+                    raise ValueError(f"Unsupported OBSERVABLE_INCLUDE target: {t}")
             targets = [t.value for t in instruction.targets_copy()]
             args = instruction.gate_args_copy()
             observable_include(b, targets, int(args[0]))
@@ -175,6 +181,9 @@ def parse_stim_circuit(
             raise ValueError(f"Unknown gate: {name}")
 
         gate_func, num_qubits = GATE_TABLE[name]
+        for t in instruction.targets_copy():
+            if t.is_sweep_bit_target:
+                raise ValueError(f"Sweep bit targets are not supported: {t}")
         targets = [t.value for t in instruction.targets_copy()]
         invert = [t.is_inverted_result_target for t in instruction.targets_copy()]
         is_classically_controlled = [
